@@ -14,6 +14,7 @@ package simrt
 import (
 	"bytes"
 	"fmt"
+	"os"
 	"reflect"
 	"sort"
 	"sync"
@@ -104,6 +105,33 @@ func Begin(c *Ctl) {
 }
 
 func End() { cur = nil }
+
+// ---------------------------------------------------------------------------------------
+// Gate: several simulated processes sharing one directory tree (bsim.execConcurrent). Each is a
+// real process; before every file operation it asks the coordinator for its turn and then runs
+// until its next file operation, so exactly one of them runs at a time and the coordinator's
+// seeded choice of who goes next is the whole interleaving.
+
+var gateReq, gateGrant *os.File
+
+// GateInit is called by a child that was started with VERIFSIM_GATE=1 (descriptors 3 and 4).
+func GateInit() {
+	if os.Getenv("VERIFSIM_GATE") == "1" {
+		gateReq, gateGrant = os.NewFile(3, "gate-req"), os.NewFile(4, "gate-grant")
+	}
+}
+
+// GateWait blocks until the coordinator grants the next step.
+func GateWait() {
+	if gateReq == nil {
+		return
+	}
+	if _, err := gateReq.Write([]byte{1}); err != nil {
+		return
+	}
+	var b [1]byte
+	_, _ = gateGrant.Read(b[:])
+}
 
 func Active() *Ctl { return cur }
 
